@@ -120,6 +120,8 @@ structure Case where
   srcs : List Src
   attrs : List Attrs
   ops : List Op
+  /-- `Table::new(shard_idx)`: packed into bits [31:24] of every destination id -/
+  shard : Nat := 0
   deriving Repr, Inhabited
 
 /-! ## Attribute getters (`PathAttribute`, `has_*_community`, `mac_mobility`, `as_path_length`) -/
@@ -634,12 +636,25 @@ def restaleDest (fam : Fam) (addr : Nat) (llgrMark : Bool) (fl : Flags) (nd : Ne
     let ids := (dst.entries.filter (sameAddr addr)).map (·.src.id)
     let fl' : Flags := if llgrMark then { fl with llgr := addIds ids fl.llgr } else { fl with stale := addIds ids fl.stale }
     let entries := sortBy (cmpFor fl' net.t2) dst.entries
-    let bestChanged := bestLpid dst.entries != bestLpid entries
+    -- restale_llgr: the LLGR_STALE community is attached on export from the source's flag, so a best
+    -- path of `addr` that keeps its rank is still a changed route
+    let bestChanged := bestLpid dst.entries != bestLpid entries ||
+      (llgrMark && (match entries.find? Entry.eligible with | some e => sameAddr addr e | none => false))
     (fl', (net, { dst with entries := entries }),
      if bestChanged || anyUnf then
        some { fam, net, destId := dst.id, best := bestChanged, any := anyUnf, replaced := none,
               paths := entries.filter Entry.eligible }
      else none)
+
+/-- `restale_llgr`: one change per usable path of `addr` (reported as replaced, so that add-path
+    neighbours advertise it again), `best_changed` on the first only -/
+def expandGo (c : Change) : Bool → List Nat → List Change
+  | _, [] => []
+  | first, pid :: l => { c with best := c.best && first, any := true, replaced := some pid } :: expandGo c false l
+
+def expandLlgr (addr : Nat) (c : Change) : List Change :=
+  let remarked := (c.paths.filter (sameAddr addr)).map (·.lpid)
+  if remarked.isEmpty then [c] else expandGo c true remarked
 
 /-- the destinations are visited one after the other; flags set while visiting one destination are
     seen by the sorts of the following ones -/
@@ -649,7 +664,9 @@ def restaleLoop (fam : Fam) (addr : Nat) (llgrMark : Bool) :
   | nd :: l, fl =>
       let (fl1, nd', c) := restaleDest fam addr llgrMark fl nd
       let (fl2, ds, cs) := restaleLoop fam addr llgrMark l fl1
-      (fl2, nd' :: ds, match c with | some c => c :: cs | none => cs)
+      (fl2, nd' :: ds, match c with
+        | some c => (if llgrMark then expandLlgr addr c else [c]) ++ cs
+        | none => cs)
 
 def Table.restaleGen (t : Table) (addr : Nat) (fam : Fam) (llgrMark : Bool) : Table × Res :=
   let rib := t.rib fam
